@@ -501,6 +501,15 @@ def handle (op : String) (args : List String) (impl : String) : Option Verdict :
       -- numval: strict, ordinary; numvalk: strict, KNOWN FINDING classes (fraction into an integer field, domain id > 255)
       if vop == "numval" && !conforms then return bad
       return ⟨showNum f (if conforms then asIs else ideal), (match implOut with | some o => PNum f milli o | none => false), tag⟩
+  | cop, [_hex] =>
+    if !(cop == "chainsenv" || cop == "chainsfile" || cop == "chainsfilek") then none else some <| Id.run do
+    -- impl = <outcome>/<oracle>; the oracle (encoding/json on the same text, computed by the harness) says whether the text
+    -- is a list of objects and how many. Property: a malformed list fails, a well-formed one loads with every entry.
+    match impl.splitOn "/" with
+    | [out, oracle] =>
+      if !(oracle == "err" || oracle.startsWith "ok:") then return bad
+      return ⟨oracle ++ "/" ++ oracle, out == oracle, s!"{cop}:{if oracle == "err" then "malformed" else "wellformed"}"⟩
+    | _ => return ⟨"BADOUT", false, cop⟩
   | _, _ => none
 
 end Sygma.Drv.C20
